@@ -11,6 +11,7 @@ M <id> <hex,hex,…>   intern the texts in this order in a table with these stat
                      part; answers one token per text: <kind><class><rt> where kind = i (inlined) /
                      s (static) / d (dynamic), class = position of the first text with the same index,
                      rt = + when the index decodes back to the text, - otherwise
+I <id> <hex>         the atom index `build_with` computes for the text in the table with these statics
 C <id> <hex>         one-character text: does `new_char_inlined` give the index `build_with` gives? agree / differ
 ```
 Texts are hex strings of UTF-8 bytes (the empty text is the empty string).
@@ -40,6 +41,9 @@ def runM (statics : List (List Nat)) (texts : List (List Nat)) : String :=
 def handle (statics : List (List Nat)) : List String → String
   | "M" :: _ :: ts :: _ => runM statics (parseTexts ts)
   | "M" :: _ :: [] => runM statics [[]]
+  | "I" :: _ :: h :: _ =>
+      toString (intern { statics := statics, dyn := [], next := 0 } (hexBytes21 h)).2
+  | "I" :: _ :: [] => toString (intern { statics := statics, dyn := [], next := 0 } []).2
   | "C" :: _ :: h :: _ =>
       let s := hexBytes21 h
       let t0 : Table := { statics := statics, dyn := [], next := 0 }
